@@ -7,6 +7,7 @@ package gomodel
 import (
 	"reflect"
 	"sort"
+	"strconv"
 	"strings"
 
 	structform "github.com/elastic/go-structform"
@@ -163,6 +164,39 @@ type FAnyList []interface{}
 
 func (f FAnyList) Fold(v structform.ExtVisitor) error { return v.OnInt(len(f)) }
 
+// FLevel is a named int that implements Folder (value receiver) and emits a
+// STRING: the kind of the type says nothing about the events of its folder.
+type FLevel int
+
+func (l FLevel) Fold(v structform.ExtVisitor) error {
+	return v.OnString("level-" + strconv.Itoa(int(l)))
+}
+
+// FFlag is a named bool that implements Folder with a pointer receiver and
+// emits an integer.
+type FFlag bool
+
+func (f *FFlag) Fold(v structform.ExtVisitor) error {
+	if f == nil {
+		return v.OnNil()
+	}
+	if *f {
+		return v.OnInt(1)
+	}
+	return v.OnInt(0)
+}
+
+// RDur is a named int64 folded by a registered folder function that emits a string.
+type RDur int64
+
+// FoldRDur is the registered folder of RDur.
+func FoldRDur(d *RDur, v structform.ExtVisitor) error {
+	if d == nil {
+		return v.OnNil()
+	}
+	return v.OnString(strconv.FormatInt(int64(*d), 10) + "ns")
+}
+
 // RegT is folded by a registered folder function (Folders option).
 type RegT struct{ X int }
 
@@ -233,6 +267,9 @@ type PoolType struct {
 	Family    bool // member of the Rec2 family: only used where a fresh recursive type is wanted
 	// NeedsUnfoldOpts: the type is unfolded by a user unfolder registered through UnfoldOptions
 	NeedsUnfoldOpts bool
+	// Normalises: the user unfolder post-processes the value (fold then unfold
+	// does not reproduce every value): only used where TypeCfg.Normalising is set
+	Normalises bool
 }
 
 var Pool = []PoolType{
@@ -267,6 +304,9 @@ var Pool = []PoolType{
 	{Name: "FolderPtr", Type: reflect.TypeOf(FolderPtr{}), FoldOnly: true},
 	{Name: "FolderScalar", Type: reflect.TypeOf(FolderScalar{}), FoldOnly: true},
 	{Name: "RegT", Type: reflect.TypeOf(RegT{}), FoldOnly: true},
+	{Name: "FLevel", Type: reflect.TypeOf(FLevel(0)), FoldOnly: true},
+	{Name: "FFlag", Type: reflect.TypeOf(FFlag(false)), FoldOnly: true},
+	{Name: "RDur", Type: reflect.TypeOf(RDur(0)), FoldOnly: true},
 	{Name: "FTags", Type: reflect.TypeOf(FTags(nil)), FoldOnly: true},
 	{Name: "FCounts", Type: reflect.TypeOf(FCounts(nil)), FoldOnly: true},
 	{Name: "FAnyMap", Type: reflect.TypeOf(FAnyMap(nil)), FoldOnly: true},
